@@ -110,9 +110,14 @@ func prctl(option uintptr, args ...uintptr) error {
 
 // seccomp syscall wrapper.
 func seccomp(op uintptr, flags FilterFlag, uargs unsafe.Pointer) error {
-	_, _, e := syscall.Syscall(unix.SYS_SECCOMP, op, uintptr(flags), uintptr(uargs))
+	r1, _, e := syscall.Syscall(unix.SYS_SECCOMP, op, uintptr(flags), uintptr(uargs))
 	if e != 0 {
 		return e
+	}
+	if r1 != 0 {
+		// With FilterFlagTSync the call returns the ID of a thread that could
+		// not be synchronized. No filter has been installed in that case.
+		return fmt.Errorf("failed to synchronize the filter to thread %d", r1)
 	}
 	return nil
 }
